@@ -486,7 +486,12 @@ class Interp:
             if heap is not None:
                 st.heap = heap
             el = join_all(frame.yields) if frame.yields else None
-            return AV(ty='generator', elem=el, maybe_empty=True, fresh=True, deps=el.deps if el is not None else None, genfn=fi.qualname)
+            # a stage of a generator pipeline: remember the stages the items went through (their yield guards filter the items)
+            upstream = next((v.pipeline for v in list(env.values()) if v is not None and v.ty in ('generator', 'list') and v.pipeline), ())
+            if not upstream and getattr(frame, 'iter_pipelines', None):
+                upstream = frame.iter_pipelines[0]  # the generator iterates another pipeline it built itself
+            return AV(ty='generator', elem=el, maybe_empty=True, fresh=True, deps=el.deps if el is not None else None, genfn=fi.qualname,
+                      pipeline=tuple(upstream) + (('yield', fi.qualname),))
         if not rets:
             return AV(ty='NoReturn')
         val = join_all(v for v, _ in rets)
@@ -781,6 +786,8 @@ class Interp:
 
     def x_For(self, s, frame, st):
         it = self.eval(s.iter, frame, st)
+        if it is not None and it.pipeline:
+            frame.iter_pipelines = getattr(frame, 'iter_pipelines', []) + [it.pipeline]
         items = known_items(it)
         if items is not None and not s.orelse:
             # a short sequence of known elements (per-axis tuples, enumerate / zip of them): the body runs once per element
@@ -1461,7 +1468,15 @@ class Interp:
             return self.model.make_seq(self, 'list', elts, n).w(fresh=True, comp_over=self.values.get(id(n.generators[0].iter)))
         (elt,), cst, me = self._comp(n, frame, st, [n.elt])
         first_iter = self.values.get(id(n.generators[0].iter))
-        return self.model.make_comp(self, 'list', elt, first_iter, n, me)
+        return self._with_pipeline(self.model.make_comp(self, 'list', elt, first_iter, n, me), first_iter, n, frame)
+
+    def _with_pipeline(self, out, first_iter, n, frame):
+        """A comprehension over the items of a generator pipeline is one more stage (its `if` clauses filter the items)."""
+        src = self.last.get(id(n.generators[0].iter)) or first_iter
+        if src is not None and src.pipeline and len(n.generators) == 1:
+            stage = (('ifs', frame.fn.qualname if (frame is not None and frame.fn is not None) else None, n),) if n.generators[0].ifs else ()
+            out = out.w(pipeline=tuple(src.pipeline) + stage)  # elements derived from items that passed those filters
+        return out
 
     def e_GeneratorExp(self, n, frame, st):
         elts = self._comp_unrolled(n, frame, st)
@@ -1469,7 +1484,7 @@ class Interp:
             return self.model.make_seq(self, 'tuple', elts, n).w(ty='generator', fresh=True, comp_over=self.values.get(id(n.generators[0].iter)))
         (elt,), cst, me = self._comp(n, frame, st, [n.elt])
         first_iter = self.values.get(id(n.generators[0].iter))
-        return self.model.make_comp(self, 'generator', elt, first_iter, n, me)
+        return self._with_pipeline(self.model.make_comp(self, 'generator', elt, first_iter, n, me), first_iter, n, frame)
 
     def e_SetComp(self, n, frame, st):
         (elt,), cst, me = self._comp(n, frame, st, [n.elt])
